@@ -14,6 +14,11 @@ NON_ALLOCATING = {
     'std::collections::VecDeque::<T, A>::is_empty': 'field read',
     'std::collections::VecDeque::<T, A>::capacity': 'field read',
     'std::collections::VecDeque::<T, A>::pop_front': 'removes an element; never reallocates',
+    'std::collections::VecDeque::<T, A>::pop_back': 'removes an element; never reallocates',
+    'std::collections::VecDeque::<T, A>::clear': 'drops the elements, keeps the allocation (documented)',
+    'std::collections::VecDeque::<T, A>::truncate': 'drops elements, keeps the allocation',
+    'std::collections::VecDeque::<T, A>::front': 'element access',
+    'std::collections::VecDeque::<T, A>::back': 'element access',
     'std::collections::VecDeque::<T>::new': 'VecDeque::new() does not allocate (documented: "Creates an empty deque")',
     'std::time::Instant::now': 'clock read',
     '<std::time::Instant as std::ops::Sub>::sub': 'arithmetic',
